@@ -116,6 +116,9 @@ def _fidelity_witness(p, hh, rng):
                     if isinstance(e, core.SymBool):
                         vals.append(None)
                         continue
+                    if isinstance(e, core.SR) and any(v.startswith('ang!') for v in core.vars_of(e.t)):
+                        vals.append(None)       # depends on the value symbol of an inverse-trig result (only loosely tied)
+                        continue
                     val = solve.model_value(m, core.lift(e))
                     vals.append(None if val is None else builtins.float(val))
                 outs[n] = vals
